@@ -36,6 +36,9 @@ func (tt *termTable) mk(op string, w int, val uint64, name string, p1, p2 int, a
 		fmt.Fprintf(&sb, ",%d", a.id)
 	}
 	k := sb.String()
+	if tt.intern == nil {
+		return &Term{op: op, w: w, val: val, name: name, p1: p1, p2: p2, args: args}
+	}
 	if t, ok := tt.intern[k]; ok {
 		return t
 	}
